@@ -46,3 +46,68 @@ class LazyTable(dict):
 
     def __len__(self):
         return 0
+
+
+# hyper-parameters at and beyond the ends of their usual ranges (the properties quantify over every setting): two variants per optimizer
+EXTREME = {
+    "HillClimbingOptimizer": [dict(epsilon=2.5, n_neighbours=1, distribution="laplace"), dict(epsilon=0.001, n_neighbours=10)],
+    "StochasticHillClimbingOptimizer": [dict(epsilon=2.5, p_accept=1.0), dict(epsilon=0.3, p_accept=0.0, n_neighbours=5)],
+    "RepulsingHillClimbingOptimizer": [dict(repulsion_factor=50, epsilon=0.3), dict(repulsion_factor=1, epsilon=2.5)],
+    "SimulatedAnnealingOptimizer": [dict(annealing_rate=0.5, start_temp=1000), dict(annealing_rate=1.1, start_temp=0.001, epsilon=1.0)],
+    "RandomSearchOptimizer": [dict(), dict()],
+    "RandomRestartHillClimbingOptimizer": [dict(n_iter_restart=1), dict(n_iter_restart=2, epsilon=2.5)],
+    "RandomAnnealingOptimizer": [dict(start_temp=1000, annealing_rate=0.5), dict(start_temp=0.1, annealing_rate=1.05)],
+    "PatternSearch": [dict(n_positions=8, pattern_size=2.0, reduction=0.5), dict(n_positions=1, pattern_size=0.9, reduction=0.99)],
+    "PowellsMethod": [dict(iters_p_dim=1), dict(iters_p_dim=3)],
+    "GridSearchOptimizer": [dict(step_size=3, direction="orthogonal"), dict(step_size=2, direction="diagonal")],
+    "DirectAlgorithm": [dict(), dict()],
+    "DownhillSimplexOptimizer": [dict(alpha=2.5, gamma=4, beta=1.5, sigma=2.0), dict(alpha=0.5, gamma=1, beta=0.9, sigma=1.5)],
+    "ParticleSwarmOptimizer": [dict(inertia=1.5, cognitive_weight=3.0, social_weight=3.0, population=4), dict(inertia=0.1, cognitive_weight=0.0, social_weight=4.0, population=3)],
+    "SpiralOptimization": [dict(decay_rate=1.1, population=4), dict(decay_rate=0.5, population=3)],
+    "ParallelTemperingOptimizer": [dict(n_iter_swap=1, population=3), dict(n_iter_swap=2, population=5)],
+    "GeneticAlgorithmOptimizer": [dict(mutation_rate=0.0, crossover_rate=1.0, offspring=1, population=5), dict(mutation_rate=1.0, crossover_rate=0.0, population=4)],
+    "EvolutionStrategyOptimizer": [dict(mutation_rate=0.0, crossover_rate=1.0, population=4), dict(mutation_rate=1.0, crossover_rate=0.0, replace_parents=True, population=3)],
+    "DifferentialEvolutionOptimizer": [dict(mutation_rate=2.0, crossover_rate=0.9, population=5), dict(mutation_rate=0.3, crossover_rate=0.1, population=4)],
+    "BayesianOptimizer": [dict(replacement=False, sampling={"random": 30}), dict(xi=1.0)],
+    "TreeStructuredParzenEstimators": [dict(replacement=False, sampling={"random": 30}), dict(gamma_tpe=0.9)],
+    "ForestOptimizer": [dict(replacement=False, sampling={"random": 30}), dict(xi=1.0)],
+    "LipschitzOptimizer": [dict(sampling={"random": 30}), dict()],
+}
+
+
+def extreme_specs(ctx, tag, *, constraint=0.5, n_fast=60, n_slow=14, rounds=1):
+    """per optimizer and extreme setting: one longer run (enough iterations to reach the rarer branches: shrink / contraction steps,
+    pattern reduction, direction changes, swaps) on a 2-3 dimensional space with 7-40 values per dimension"""
+    import inspect
+    rng = ctx.sub_rng(tag + "-extreme")
+    out = []
+    for rd in range(rounds):
+        for name in gen.ALL:
+            slow = name in gen.SLOW
+            for cfg in EXTREME.get(name, [dict()]):
+                nd = rng.choice([2, 2, 3]) if not slow else 2
+                sizes = [rng.choice([7, 12, 25, 40]) if not slow else rng.choice([6, 9]) for _ in range(nd)]
+                space = {"x%d" % d: np.arange(sizes[d]) * rng.choice([1, 1, 2]) - rng.choice([0, 3]) for d in range(nd)}
+                ok = set(inspect.signature(gen.opt_class(name).__init__).parameters)
+                cfg2 = {k: v for k, v in cfg.items() if k in ok}
+                if rng.random() < 0.4:
+                    cfg2["rand_rest_p"] = rng.choice([0.05, 0.3])
+                spec = dict(name=name, space=space, table=LazyTable(space), calls=[dict(n_iter=(n_fast if not slow else n_slow), memory=False, verbosity=False)],
+                            seed=rng.randrange(10 ** 6), init={"random": rng.choice([2, 4]), "vertices": rng.choice([0, 2])}, cfg=cfg2,
+                            meta=[("int", "asc", n) for n in sizes], steps_api=True, feasible=None)
+                if rng.random() < constraint and int(np.prod(sizes)) <= 4000:
+                    allp = gen.all_positions(space)
+                    kind = rng.choice(["sum-parity", "diag-band", "halfspace"])
+                    if kind == "sum-parity":
+                        feas = {p for p in allp if sum(p) % 2 == 0}
+                    elif kind == "diag-band":
+                        w = max(2, sizes[0] // 3)
+                        feas = {p for p in allp if abs(p[0] - p[1]) <= w}
+                    else:
+                        c = sum(sizes) // 2
+                        feas = {p for p in allp if sum(p) <= c}
+                    if len(feas) * 4 >= len(allp):
+                        spec["feasible"] = feas
+                        spec["constraint_desc"] = (kind,)
+                out.append(spec)
+    return out
